@@ -176,6 +176,11 @@ def run_config(cfg, res):
           vt_ = 'nan' if v != v else ('%d' % v if isinstance(v, int) else codec.spell_float(v, r))
           tt = '%d' % t if isinstance(t, int) else repr(t)
           lines.append(codec.encode_line(n, vt_, tt, None, b'\n'))
+        if r.random() < 0.3:
+          # a line no rule applies to because it is not a datapoint at all (not UTF-8, wrong field count): it is skipped,
+          # nothing else in the stream or datagram is affected (C11), so the rules still apply to every other line
+          lines.insert(r.randrange(len(lines) + 1), r.choice([b'servers.caf\xe9.load 1 1\n', b'\xff\xfe 2 2\n', b'only two\n', b'a b c d\n']))
+          res.count('batches_with_a_malformed_line')
         if protoname == 'line':
           o = proto.tcp_session(P.MetricLineReceiver, [b''.join(lines)], rec)
         else:
